@@ -933,6 +933,7 @@ class Pyramid(object):
     def _walk_parallel(self, callback, cli_progress, parallel):
         import multiprocessing as mp
         from queue import Empty
+        from .par_util import any_worker_failed
 
         # When dispatching we keep track of finished tiles (reported in
         # `done_queue`) and notify workers when new tiles are ready to process
@@ -1033,6 +1034,13 @@ class Pyramid(object):
                 except (OSError, ValueError, Empty):
                     # OSError or ValueError => queue closed. This signal seems not to
                     # cross multiprocess lines, though.
+
+                    # A worker that died will never report its tile as done,
+                    # so we must not keep waiting for it.
+                    if any_worker_failed(workers):
+                        done_event.set()
+                        raise Exception("a worker process failed; see the traceback printed above")
+
                     continue
 
                 progress.update(1)
@@ -1064,6 +1072,9 @@ class Pyramid(object):
 
         for w in workers:
             w.join()
+
+        if any_worker_failed(workers):
+            raise Exception("a worker process failed; see the traceback printed above")
 
     def visit_leaves(
         self,
@@ -1158,6 +1169,7 @@ class Pyramid(object):
 
     def _visit_leaves_parallel(self, callback, total, cli_progress, parallel):
         import multiprocessing as mp
+        from .par_util import any_worker_failed
 
         ready_queue = mp.Queue(maxsize=2 * parallel)
         done_event = mp.Event()
@@ -1195,6 +1207,9 @@ class Pyramid(object):
 
         for w in workers:
             w.join()
+
+        if any_worker_failed(workers):
+            raise Exception("a worker process failed; see the traceback printed above")
 
 
 class PyramidReductionIterator(object):
